@@ -350,6 +350,21 @@ func exprPoly(info *types.Info, e ast.Expr, defs map[types.Object]localDef, stop
 			return polyConst(v), true
 		}
 	}
+	if id, isId := e.(*ast.Ident); isId && polyAbstract {
+		if d, ok := defs[info.Uses[id]]; ok && d.pos == 0 && !stop[id.Name] {
+			return exprPoly(info, d.rhs, defs, stop, depth+1)
+		}
+	}
+	if polyAbstract {
+		switch x := e.(type) {
+		case *ast.Ident, *ast.SelectorExpr:
+			if _, isSel := x.(*ast.SelectorExpr); !isSel || !isSpecType(info.TypeOf(x.(*ast.SelectorExpr).X)) {
+				if tv, ok := info.Types[e]; !ok || tv.Value == nil {
+					return polyAtom(absName(info, e)), true
+				}
+			}
+		}
+	}
 	switch x := e.(type) {
 	case *ast.Ident:
 		if stop[x.Name] {
@@ -369,6 +384,9 @@ func exprPoly(info *types.Info, e ast.Expr, defs map[types.Object]localDef, stop
 			return exprPoly(info, x.Args[0], defs, stop, depth+1)
 		}
 		if id, ok := x.Fun.(*ast.Ident); ok && id.Name == "len" && len(x.Args) == 1 {
+			if polyAbstract {
+				return polyAtom("len(" + absName(info, x.Args[0]) + ")"), true
+			}
 			return polyAtom("len(" + types.ExprString(x.Args[0]) + ")"), true
 		}
 		if f := calleeFunc(info, x); f != nil {
@@ -401,6 +419,11 @@ func exprPoly(info *types.Info, e ast.Expr, defs map[types.Object]localDef, stop
 			// x << c with a constant c is x * 2^c
 			if cb, ok := b.isConst(); ok && cb >= 0 && cb < 62 {
 				return polyMul(a, polyConst(int64(1)<<uint(cb))), true
+			}
+		case token.SHR:
+			// x >> c with a constant c is floor(x / 2^c) on unsigned operands
+			if cb, ok := b.isConst(); ok && cb >= 0 && cb < 62 {
+				return polyDiv(a, polyConst(int64(1)<<uint(cb))), true
 			}
 		case token.REM:
 			safe := func(p Poly) string {
@@ -593,3 +616,47 @@ func ruleCommitteePartition(c *Ctx) {
 }
 
 var _ = packages.NeedName
+
+// polyAbstract makes exprPoly name local variables and parameters by their type (alpha-invariant atoms), used by the
+// sibling cross-check to recognise a renamed local.
+var polyAbstract = false
+
+func absName(info *types.Info, e ast.Expr) string {
+	switch x := ast.Unparen(e).(type) {
+	case *ast.Ident:
+		if v, ok := info.ObjectOf(x).(*types.Var); ok && !v.IsField() && v.Pkg() != nil && v.Parent() != v.Pkg().Scope() {
+			t := types.TypeString(v.Type(), func(*types.Package) string { return "" })
+			return "\u00a7" + strings.TrimLeft(t, "*")
+		}
+		return x.Name
+	case *ast.SelectorExpr:
+		if id := identOf(x.X); id != nil {
+			if _, isPkg := info.ObjectOf(id).(*types.PkgName); isPkg {
+				return x.Sel.Name
+			}
+		}
+		return absName(info, x.X) + "." + x.Sel.Name
+	case *ast.StarExpr:
+		return absName(info, x.X)
+	case *ast.IndexExpr:
+		return absName(info, x.X) + "[]"
+	case *ast.BinaryExpr:
+		return "(" + absName(info, x.X) + x.Op.String() + absName(info, x.Y) + ")"
+	case *ast.CallExpr:
+		var as []string
+		for _, a := range x.Args {
+			as = append(as, absName(info, a))
+		}
+		fn := strings.ReplaceAll(types.ExprString(x.Fun), " ", "")
+		if se, ok := x.Fun.(*ast.SelectorExpr); ok {
+			fn = absName(info, se.X) + "." + se.Sel.Name
+		}
+		return fn + "(" + strings.Join(as, ",") + ")"
+	case *ast.BasicLit:
+		return x.Value
+	}
+	if tv, ok := info.Types[e]; ok && tv.Value != nil {
+		return tv.Value.ExactString()
+	}
+	return strings.ReplaceAll(types.ExprString(e), " ", "")
+}
